@@ -1,6 +1,6 @@
 (** C15 — Moving averages are averages: affine-equivariant, range-preserving, linear. *)
 From Yata Require Import Base.Prelude Base.Num Base.NumR Core.Window Core.Candle Spec.Hist Spec.MethodDefs
-  Methods.Basic Proofs.MethodsCommon Proofs.Averages.
+  Methods.Basic Core.Strings Indicators.Common Spec.IndicatorDefs Proofs.MethodsCommon Proofs.Averages Proofs.MAProofs Proofs.Averages2.
 From Coq Require Import Reals.
 
 Section C15.
@@ -46,3 +46,18 @@ Theorem C15_sma_method_affine {pw : PW} n (a b v : @F NumR) xs x : (1 <= n <= pm
     snd (sma_next (steps sma_next s1 (map (aff a b) xs)) (aff a b x)) =
     aff a b (snd (sma_next (steps sma_next s0 xs) x)).
 Proof. exact (sma_method_affine n a b v xs x). Qed.
+
+(** every averaging kind of the MA constructor that has a method theorem, except SWMA (12 kinds: sma wma hma rma ema
+    dma dema tma tema wsma trima linreg): the instance built by the constructor is affine-equivariant on every stream *)
+Theorem C15_ma_constructor_affine {pw : PW} (c : ma_cfg) (a b v : @F NumR) xs x :
+  ma_proved c = true -> not_swma c = true -> ma_len_ok c ->
+  exists s0 s1, ma_init c v = Ok s0 /\ ma_init c (aff a b v) = Ok s1 /\
+    snd (ma_next (steps ma_next s1 (map (aff a b) xs)) (aff a b x)) = aff a b (snd (ma_next (steps ma_next s0 xs) x)).
+Proof. exact (ma_method_affine' c a b v xs x). Qed.
+Theorem C15_trima_affine n a b (h : nat -> @F NumR) : (1 <= n)%nat -> trima_def n (fun i => a * h i + b)%R = (a * trima_def n h + b)%R.
+Proof. exact (trima_affine n a b h). Qed.
+Theorem C15_hma_affine n n2 n3 a b (h : nat -> @F NumR) : (1 <= n)%nat -> (1 <= n2)%nat -> (1 <= n3)%nat ->
+  hma_def n n2 n3 (fun i => a * h i + b)%R = (a * hma_def n n2 n3 h + b)%R.
+Proof. exact (hma_affine n n2 n3 a b h). Qed.
+Theorem C15_lin_reg_affine n a b (h : nat -> @F NumR) : (1 <= n)%nat -> linreg_def n (fun i => a * h i + b)%R = (a * linreg_def n h + b)%R.
+Proof. exact (linreg_affine n a b h). Qed.
